@@ -189,7 +189,7 @@ class Merger:
                     # pylint: disable=protected-access
                     scalar_rule = self.config._get_rule_for(node_coord)
                     if scalar_rule:
-                        merge_mode = HashMergeOpts.from_str(scalar_rule)
+                        merge_mode = AoHMergeOpts.from_str(scalar_rule)
                 self.logger.debug("Merger::_merge_dicts:  Got merge mode, {}."
                                   .format(merge_mode))
                 if merge_mode in (
